@@ -16,8 +16,8 @@
 (*   nat/int/float = 4-byte tuple, long/double/uint64 = 8-byte tuple,      *)
 (*   byte = 1-tuple, string = sequence of bytes, bool/bit = BOOLEAN,       *)
 (*   struct = sequence of entries, one per field: the field value, or for  *)
-(*   an optional field (TL1 field mask and/or TL2 presence bit) a record   *)
-(*   [p |-> present, v |-> value or <<>>];  union = [i |-> variant (1..),  *)
+(*   an optional field (TL1 field mask and/or TL2 presence bit) <<>> when   *)
+(*   absent and <<value>> when present;  union = [i |-> variant (1..),     *)
 (*   v |-> struct value]; array/dict = sequence of element values.         *)
 (* env = values (4-byte tuples) of the instance's nat parameters.          *)
 (***************************************************************************)
@@ -36,15 +36,21 @@ BitSet(b, k) == (b[(k \div 8) + 1] \div Pow2(k % 8)) % 2 = 1
 SetBit(b, k, on) == [b EXCEPT ![(k \div 8) + 1] =
                         IF on = BitSet(b, k) THEN @ ELSE IF on THEN @ + Pow2(k % 8) ELSE @ - Pow2(k % 8)]
 
-Absent == [p |-> FALSE, v |-> <<>>]
-Pres(x) == [p |-> TRUE, v |-> x]
+(* optional entry: <<>> = absent, <<x>> = present with value x *)
+Absent == <<>>
+Pres(x) == <<x>>
+IsP(e) == Len(e) = 1
+PV(e) == e[1]
 
 IsOpt(f) == f.mask.k # "none" \/ f.tl2bit >= 0       \* optional entry representation
 NatMasked(f) == f.mask.k # "none"
 
+(* the value carried by a present bit-like field (x:m.b?true, x:bit) is immaterial *)
+FDefault(f, dflt) == IF f.isbit THEN <<>> ELSE dflt
+
 (* value of the nat held by entry number i of a (partial) struct value *)
 FieldNat(t, vals, i) ==
-  IF IsOpt(t.fields[i]) THEN (IF vals[i].p THEN vals[i].v ELSE Z4) ELSE vals[i]
+  IF IsOpt(t.fields[i]) THEN (IF IsP(vals[i]) THEN PV(vals[i]) ELSE Z4) ELSE vals[i]
 
 ArgVal(a, env, t, vals) ==
   CASE a.k = "num"   -> a.num
@@ -73,7 +79,7 @@ DefFields(t, env, i, acc) ==
        DefFields(t, env, i + 1,
                  Append(acc, IF ~IsOpt(f) THEN Default(f.t, ArgsVal(f.na, env, t, acc))
                              ELSE IF NatMasked(f) /\ MaskOn(f, env, t, acc)      \* outer / constant mask already on
-                             THEN Pres(Default(f.t, ArgsVal(f.na, env, t, acc)))
+                             THEN Pres(FDefault(f, Default(f.t, ArgsVal(f.na, env, t, acc))))
                              ELSE Absent))
 Default(tn, env) ==
   LET t == TY(tn) IN
@@ -104,9 +110,9 @@ FixFields(t, env, v, i, acc) ==
            e == IF ~IsOpt(f) THEN Fix(f.t, cenv, v[i])
                 ELSE IF NatMasked(f) THEN
                        (IF MaskOn(f, env, t, acc)
-                        THEN (IF v[i].p THEN Pres(Fix(f.t, cenv, v[i].v)) ELSE Pres(Default(f.t, cenv)))
+                        THEN (IF IsP(v[i]) THEN Pres(FDefault(f, Fix(f.t, cenv, PV(v[i])))) ELSE Pres(FDefault(f, Default(f.t, cenv))))
                         ELSE Absent)
-                ELSE (IF v[i].p THEN Pres(Fix(f.t, cenv, v[i].v)) ELSE Absent)
+                ELSE (IF IsP(v[i]) THEN Pres(FDefault(f, Fix(f.t, cenv, PV(v[i])))) ELSE Absent)
        IN FixFields(t, env, v, i + 1, Append(acc, e))
 Fix(tn, env, v) ==
   LET t == TY(tn) IN
@@ -129,7 +135,7 @@ ValidFields(t, env, v, i) ==
       cenv == ArgsVal(f.na, env, t, v)
   IN /\ IF ~IsOpt(f) THEN Valid1(f.t, cenv, v[i])
         ELSE IF NatMasked(f) /\ ~MaskOn(f, env, t, v) THEN TRUE      \* not written at all
-        ELSE v[i].p => Valid1(f.t, cenv, v[i].v)
+        ELSE (IsP(v[i]) /\ ~f.isbit) => Valid1(f.t, cenv, PV(v[i]))
      /\ ValidFields(t, env, v, i + 1)
 Valid1(tn, env, v) ==
   LET t == TY(tn) IN
